@@ -225,7 +225,11 @@ def sampler_case(ctx, case):
             td = env.step(td)["next"]
         sh.observe(td, a, "step")
         if case.get("to_best_every") and (t + 1) % case["to_best_every"] == 0:
-            td = env.step_to_solution(td, td["rec_best"].clone())
+            # n-step PPO's curriculum hands the state's own best tour back WITHOUT copying it (`step_to_solution(td, td["rec_best"])`):
+            # the current and the best tour must not end up sharing storage
+            td = env.step_to_solution(td, td["rec_best"] if case.get("alias_best") else td["rec_best"].clone())
+            if case.get("alias_best"):
+                ctx.count("c09_step_to_own_best_uncopied")
             sh.observe(td, None, "step_to_solution")
             ctx.count("c09_step_to_solution")
     ctx.sample(dict(case=case, final_cost_bsf=td["cost_bsf"].tolist()[:3], trace_row0=sh.trace[0][:4]))
